@@ -274,3 +274,146 @@ pub proof fn lemma_lpm_step<P: Prefix, T>(t: Seq<Node<P, T>>, live: ISet<int>, i
         lemma_content_at(t, live, idx);
     }
 }
+
+pub open spec fn idx_key<'a, P: Prefix, T>(t: Seq<Node<P, T>>, b: Option<usize>) -> Option<&'a P> {
+    match b { Some(i) => Some(&t[i as int].prefix), None => None }
+}
+
+/// index-based LPM state of `get_lpm_mut` / `find_lpm`
+pub open spec fn lpm_idx_upto<P: Prefix, T>(t: Seq<Node<P, T>>, live: ISet<int>, bound: Seq<bool>, strict: bool, b: Option<usize>) -> bool {
+    (b.is_some() ==> stored(t, live, b.unwrap() as int)) && lpmk_upto(content(t, live), bound, strict, idx_key(t, b))
+}
+
+pub open spec fn lpm_idx_spec<P: Prefix, T>(t: Seq<Node<P, T>>, live: ISet<int>, q: Seq<bool>, b: Option<usize>) -> bool {
+    (b.is_some() ==> stored(t, live, b.unwrap() as int)) && lpmk_spec(content(t, live), q, idx_key(t, b))
+}
+
+pub proof fn lemma_lpm_idx_step<P: Prefix, T>(t: Seq<Node<P, T>>, live: ISet<int>, idx: int, q: Seq<bool>, best: Option<usize>, best2: Option<usize>)
+    requires
+        twf_live(t, live), live.contains(idx), pre(kb(t, idx), q),
+        lpm_idx_upto(t, live, kb(t, idx), true, best),
+        t[idx].value.is_some() ==> best2.is_some() && best2.unwrap() as int == idx,
+        t[idx].value.is_none() ==> best2 == best,
+    ensures
+        step_bounds(t, live, idx),
+        path_ends(t, idx, q) ==> lpm_idx_spec(t, live, q, best2),
+        !path_ends(t, idx, q) ==> lpm_idx_upto(t, live, kb(t, path_next(t, idx, q)), true, best2),
+{
+    lemma_lpmk_step(t, live, idx, q, idx_key(t, best), idx_key(t, best2));
+}
+
+/// from the index-based result to the (prefix, value) result
+pub proof fn lemma_lpm_idx_final<P: Prefix, T>(t: Seq<Node<P, T>>, live: ISet<int>, q: Seq<bool>, b: Option<usize>)
+    requires twf_live(t, live), lpm_idx_spec(t, live, q, b)
+    ensures
+        b.is_some() ==> 0 <= b.unwrap() < t.len() && t[b.unwrap() as int].value.is_some()
+            && lpm_spec(content(t, live), q, Some((&t[b.unwrap() as int].prefix, &t[b.unwrap() as int].value.unwrap()))),
+        b.is_none() ==> lpm_spec::<P, T>(content(t, live), q, None),
+{
+    lemma_glob(t, live);
+    if b.is_some() {
+        lemma_content_at(t, live, b.unwrap() as int);
+    }
+}
+
+// ---- shortest prefix match (C09) ----
+
+pub open spec fn spmk_spec<P: Prefix, T>(m: IMap<Seq<bool>, (P, T)>, q: Seq<bool>, rk: Option<&P>) -> bool {
+    match rk {
+        Some(p) => covers(m, p.bits(), q) && *p == m[p.bits()].0
+            && (forall|k: Seq<bool>| #[trigger] covers(m, k, q) ==> k.len() >= p.bits().len()),
+        None => forall|k: Seq<bool>| !#[trigger] covers(m, k, q),
+    }
+}
+
+pub open spec fn none_upto<P: Prefix, T>(m: IMap<Seq<bool>, (P, T)>, bound: Seq<bool>) -> bool {
+    forall|k: Seq<bool>| !#[trigger] in_range(m, k, bound, false)
+}
+
+pub proof fn lemma_spm_root<P: Prefix, T>(t: Seq<Node<P, T>>, live: ISet<int>, q: Seq<bool>)
+    requires twf_live(t, live)
+    ensures
+        0 < t.len(), live.contains(0), pre(kb(t, 0), q),
+        t[0].value.is_some() ==> spm_spec(content(t, live), q, Some((&t[0].prefix, &t[0].value.unwrap()))),
+        t[0].value.is_none() ==> none_upto(content(t, live), kb(t, 0)),
+{
+    lemma_glob(t, live);
+    let m = content(t, live);
+    if t[0].value.is_some() {
+        lemma_content_at(t, live, 0);
+    } else {
+        assert forall|k: Seq<bool>| !#[trigger] in_range(m, k, kb(t, 0), false) by {
+            if in_range(m, k, kb(t, 0), false) {
+                lemma_content_dom(t, live, k);
+                let n = node_of(t, live, k);
+                assert(live.contains(n) && live.contains(0));
+                assert(kb(t, n) =~= kb(t, 0));
+            }
+        }
+    }
+}
+
+pub proof fn lemma_spm_step<P: Prefix, T>(t: Seq<Node<P, T>>, live: ISet<int>, idx: int, q: Seq<bool>)
+    requires
+        twf_live(t, live), live.contains(idx), pre(kb(t, idx), q),
+        none_upto(content(t, live), kb(t, idx)),
+    ensures
+        step_bounds(t, live, idx),
+        t[idx].value.is_none(),
+        path_ends(t, idx, q) ==> (forall|k: Seq<bool>| !#[trigger] covers(content(t, live), k, q)),
+        !path_ends(t, idx, q) ==> ({
+            let c = path_next(t, idx, q);
+            (t[c].value.is_some() ==> spm_spec(content(t, live), q, Some((&t[c].prefix, &t[c].value.unwrap()))))
+                && (t[c].value.is_none() ==> none_upto(content(t, live), kb(t, c)))
+        }),
+{
+    let m = content(t, live);
+    lemma_step(t, live, idx, q);
+    if t[idx].value.is_some() {
+        lemma_content_at(t, live, idx);
+        assert(in_range(m, kb(t, idx), kb(t, idx), false));
+    }
+    if path_ends(t, idx, q) {
+        assert forall|k: Seq<bool>| !#[trigger] covers(m, k, q) by {
+            if covers(m, k, q) {
+                lemma_pre_comparable(k, kb(t, idx), q);
+                lemma_content_dom(t, live, k);
+                let n = node_of(t, live, k);
+                if pre(k, kb(t, idx)) {
+                    assert(in_range(m, k, kb(t, idx), false));
+                } else {
+                    assert(on_path_below(t, live, idx, q, n));
+                }
+            }
+        }
+    } else {
+        let c = path_next(t, idx, q);
+        assert(live.contains(c));
+        // every stored key covering q and not above idx is at or below c
+        assert forall|k: Seq<bool>| #[trigger] covers(m, k, q) implies pre(kb(t, c), k) by {
+            lemma_pre_comparable(k, kb(t, idx), q);
+            lemma_content_dom(t, live, k);
+            let n = node_of(t, live, k);
+            if pre(k, kb(t, idx)) {
+                assert(in_range(m, k, kb(t, idx), false));
+            } else {
+                assert(on_path_below(t, live, idx, q, n));
+            }
+        }
+        if t[c].value.is_some() {
+            lemma_content_at(t, live, c);
+        } else {
+            assert forall|k: Seq<bool>| !#[trigger] in_range(m, k, kb(t, c), false) by {
+                if in_range(m, k, kb(t, c), false) {
+                    lemma_pre_trans(k, kb(t, c), q);
+                    assert(covers(m, k, q));
+                    assert(k =~= kb(t, c));
+                    lemma_content_dom(t, live, k);
+                    let n = node_of(t, live, k);
+                    assert(live.contains(n) && live.contains(c));
+                    lemma_glob(t, live);
+                }
+            }
+        }
+    }
+}
